@@ -402,6 +402,17 @@ def budget_is_charged_behind_a_token_decision(F, res, rule="P5a"):
         return
     budget = bud["method"]
     TOKENISH = ("Parser::nth", "Parser::at", "Parser::at_any", "SyntaxKind::infix_bp", "SyntaxKind::postfix_bp", "SyntaxKind::prefix_bp", "TokenSet::contains")
+    # a named predicate over the current token (`at_postfix_start(p)`): a function of the parser that looks (nth / at / at_any), answers
+    # bool and consumes nothing
+    from rules import parser_model as _PMb
+    consuming = set(_PMb.movers(F)) | {_PMb.P + x for x in ("bump", "eat", "expect", "bump_with_error", "start_node", "start_node_before", "finish_node", "error")}
+    predicates = set()
+    for q, g in F.fns.items():
+        if not q.startswith("syntax::parser::") or not g.blocks or "{closure" in q or str(g.local_ty(0)) != "bool" or q == budget:
+            continue
+        cs = {callee(tt) or "" for _b, tt in g.calls()}
+        if any(FL.short(c).endswith(x) for c in cs for x in TOKENISH) and not (cs & consuming) and not any(c.startswith("syntax::parser::") and c not in (_PMb.P + "nth", _PMb.P + "at", _PMb.P + "at_any") and "TokenSet" not in c for c in cs):
+            predicates.add(q)
     n, bad = 0, []
     for p_, f in sorted(F.fns.items()):
         if not p_.startswith("syntax::parser::") or not f.blocks or p_ == budget:
@@ -417,7 +428,8 @@ def budget_is_charged_behind_a_token_decision(F, res, rule="P5a"):
             body = inner[0] if inner else None
             gs = FL.gates(F, f, [b], d)
             # calls that look at the current token, in this iteration, before the question
-            looks = [cb for cb, ct in f.calls() if any(FL.short(callee(ct) or callee_def(ct) or "").endswith(x) for x in TOKENISH) and
+            looks = [cb for cb, ct in f.calls() if (any(FL.short(callee(ct) or callee_def(ct) or "").endswith(x) for x in TOKENISH) or
+                                                      (callee(ct) or "") in predicates) and
                      (body is None or cb in body) and f.dominates(cb, b)]
             # .. and a decision between the look and the question (the `matches!` on what nth answered, infix_bp's Some)
             ok = any((body is None or g.get("bb") in body) and any(f.dominates(cb, g["bb"]) for cb in looks) for g in gs)
